@@ -177,6 +177,34 @@ impl FragmentAssembler {
     let writer_sn = datafrag.writer_sn;
     let frag_size = self.fragment_size;
 
+    // Sanity checks. The DataFrag comes from the network, so it may claim anything.
+    // Each writer must use one constant fragment size, and all the fragments of
+    // a sample must agree on the size of the sample. Fragments are numbered from 1
+    // up to the fragment count that follows from these sizes.
+    let fragment_count = u64::from(u32::from(datafrag.total_number_of_fragments()));
+    let first_frag = u64::from(u32::from(datafrag.fragment_starting_num));
+    let frags_in_submessage = u64::from(datafrag.fragments_in_submessage);
+    if datafrag.fragment_size != frag_size
+      || first_frag < 1
+      || frags_in_submessage < 1
+      || first_frag - 1 + frags_in_submessage > fragment_count
+      || self
+        .assembly_buffers
+        .get(&writer_sn)
+        .is_some_and(|ab| ab.buffer_bytes.len() as u64 != u64::from(datafrag.data_size))
+    {
+      warn!(
+        "Rejecting inconsistent DATAFRAG: writer_sn={:?} fragment_starting_num={:?}          fragments_in_submessage={} fragment_size={} (expected {}) data_size={}",
+        writer_sn,
+        datafrag.fragment_starting_num,
+        datafrag.fragments_in_submessage,
+        datafrag.fragment_size,
+        frag_size,
+        datafrag.data_size
+      );
+      return None;
+    }
+
     let assembly_buffer = self
       .assembly_buffers
       .entry(datafrag.writer_sn)
